@@ -436,6 +436,74 @@ fn upgrade_at_pauses(sr: &ShapeRun, m: usize, out: &mut Out) {
     }
 }
 
+/// The controller switches syncing off at every pause position: that flag only stops the
+/// fetching of new blocks, the ingestion in progress still finishes in finitely many rounds
+/// and the final answers equal those of the unsliced run.
+fn syncing_off_at_pauses(sr: &ShapeRun, m: usize, out: &mut Out) {
+    use ic_btc_interface::{Flag, SetConfigRequest};
+    for k in 1..m {
+        let mut w = setup(sr.shape);
+        let reply_block = offer(&w);
+        let hist = |stage: &str| json!({"shape": sr.shape.name, "budgets": vec![1u64; k], "then": "set_config(syncing = disabled)", "stage": stage});
+        let mut ok = true;
+        for _ in 0..k {
+            if !work_pending(&w) {
+                break;
+            }
+            if w.heartbeat_with(Some(complete_reply(vec![reply_block.clone()], vec![])), Some(1)).is_err() {
+                ok = false;
+                break;
+            }
+        }
+        if !ok || !w.is_ingesting() {
+            continue;
+        }
+        out.transitions += 1;
+        if let Err(p) = w.set_config(SetConfigRequest { syncing: Some(Flag::Disabled), ..Default::default() }) {
+            out.set_history(hist("set_config"));
+            out.violation("set-config-trap-at-pause", None, json!({"panic": p}));
+            continue;
+        }
+        out.count("syncing_switched_off_at_a_pause");
+        let mut rounds = 0;
+        while work_pending(&w) && rounds < 8 {
+            let _ = rt::take_successors_requests();
+            if let Err(p) = w.heartbeat_with(Some(complete_reply(vec![reply_block.clone()], vec![])), None) {
+                out.set_history(hist("resuming with syncing off"));
+                out.violation("heartbeat-trap-with-syncing-off-at-pause", None, json!({"panic": p}));
+                ok = false;
+                break;
+            }
+            if !rt::take_successors_requests().is_empty() {
+                out.set_history(hist("resuming with syncing off"));
+                out.violation("fetched-with-syncing-off", None, json!({}));
+            }
+            rounds += 1;
+        }
+        if !ok {
+            continue;
+        }
+        if work_pending(&w) {
+            out.set_history(hist("resuming with syncing off"));
+            out.violation("ingestion-stalls-with-syncing-off", None, json!({"rounds": rounds, "still_ingesting": w.is_ingesting()}));
+            continue;
+        }
+        let _ = w.set_config(SetConfigRequest { syncing: Some(Flag::Enabled), ..Default::default() });
+        let fin = observe::observe(&w, &sr.opts);
+        let d = observe::diff(&sr.unsliced_obs, &fin);
+        if !d.is_empty() {
+            out.set_history(hist("after completion"));
+            out.violation(
+                "final-answers-differ-from-unsliced-run-after-syncing-off-at-pause",
+                None,
+                json!({"differing_probes": d.iter().take(8).collect::<Vec<_>>(), "n_differing": d.len()}),
+            );
+        } else {
+            out.count("syncing_off_at_pause_runs_completed_with_identical_answers");
+        }
+    }
+}
+
 /// Fingerprint of a paused state with the per-round statistics masked.
 fn full_fingerprint_paused() -> u128 {
     full_fingerprint()
@@ -505,6 +573,7 @@ fn run_shape(shape: &Shape, max_m: usize, rep_out: &mut Out) -> Value {
     }
     if m <= max_m {
         upgrade_at_pauses(&sr, m, &mut out);
+        syncing_off_at_pauses(&sr, m, &mut out);
     }
     out.add("budget_sequences", n);
     out.add("distinct_pause_positions", sr.pos_fp.len() as u64);
@@ -542,11 +611,12 @@ pub fn run(tier: &str) -> i32 {
         rep.out.merge(o);
         rep.parts.push(v);
     }
-    rep.rule = "for each block shape, all compositions of the m slicing call sites into per-round budgets >= 1 (2^(m-1) schedules), each driven through the real heartbeat() with a source that always offers a further valid block; at the first visit of every pause position the complete probe set is compared with the answers before ingestion began, later visits must reach the identical state; the final state must equal the unsliced run; plus an upgrade at every pause position (answers unchanged by it, ingestion completes, final answers equal the unsliced run)".into();
+    rep.rule = "for each block shape, all compositions of the m slicing call sites into per-round budgets >= 1 (2^(m-1) schedules), each driven through the real heartbeat() with a source that always offers a further valid block; at the first visit of every pause position the complete probe set is compared with the answers before ingestion began, later visits must reach the identical state; the final state must equal the unsliced run; plus an upgrade at every pause position (answers unchanged by it, ingestion completes, final answers equal the unsliced run) and set_config(syncing = disabled) at every pause position (ingestion still completes without fetching, same final answers)".into();
     rep.bounds = json!({"tier": tier, "max_call_sites": max_m, "shapes": shapes.len()});
     rep.assume("budgets are expressed in slicing call sites (one per input and per output), the only points where the code can pause");
     rep.assume("block_ingestion_stats and histograms are masked in fingerprints: they legitimately record the number of rounds");
     rep.floor("upgrades_at_a_pause", 30);
+    rep.floor("syncing_switched_off_at_a_pause", 30);
     rep.floor("pauses_inside_input_loop", 10);
     rep.floor("pauses_between_inputs_and_outputs", 10);
     rep.floor("pauses_inside_output_loop", 100);
